@@ -2194,8 +2194,11 @@ def c08_update_accounting_group(mir, ctx):
         why = ""
         pending_cell = None
         removed = False
+        unreplaced = "a cell's reference is released, but no new reference is taken for the value stored in its place (the pool entry of the new value is under-counted and is freed while cells still refer to it)"
         for e in seq:
             if e[0] == "cell":
+                if removed:
+                    ok, why = False, unreplaced
                 pending_cell, removed = e[1], False
             elif e[0] == "remove":
                 if pending_cell is None or e[1] != pending_cell or removed:
@@ -2206,6 +2209,8 @@ def c08_update_accounting_group(mir, ctx):
                     ok, why = False, "a new reference is taken for a cell whose previous reference was not released (reference count leaks)"
                 removed = False
                 pending_cell = None
+        if removed and ok:
+            ok, why = False, unreplaced
         if not ok:
             g.queries.append(Query("unpaired_%d" % k, o.pc, "unsat", note=why))
         else:
